@@ -13,11 +13,52 @@
     [aligned] / [alg] (Proofs.v) are edit scripts: substitutions, insertions, deletions.
 
     Patterns of 64 symbols are excluded in the statements ([length pat <= 63]): [0x1L << 64] is
-    undefined in C; the harness reports what the code does with them (known finding
-    m64-never-matches). *)
+    undefined in C; MakeApatPattern (as repaired) refuses them ([make_pattern], C10_make_pattern_length;
+    known finding m64-rejected: the property text says 1..64). *)
 From Coq Require Import NArith ZArith List Bool Lia.
 Import ListNotations.
-From OBI.C10 Require Import Model Proofs.
+From OBI.C10 Require Import Model Proofs TableProofs CompString PostProofs.
+
+(** *** the tables and constants of the CURRENT build (Gen/Tables.v is rewritten from the code by tools/props/c10.py regen
+    before every Coq build; these theorems are therefore re-proved by the kernel on every run, and a changed entry breaks
+    them - the check then computes the failing symbol and replays it on the real code) *)
+
+(** sDnaCode (apat_parse.c): the symbol set of a pattern letter contains the text letter c iff c is one of the bases the
+    letter stands for in the IUPAC nomenclature ([bases_of], Model.v: codes a = 0, c = 2, g = 6, t = 19; U = T, X = N) *)
+Theorem C10_dna_code_iupac_sets : forall L, is_upper L = true ->
+  forall c, N.testbit (dna_code L) c = true <-> In c (bases_of L).
+Proof. exact dna_code_iupac. Qed.
+
+(** obialign._iupac (used by LocatePattern through _samenuc): the same base sets on the bits a, c, g, t - for every letter
+    but x, whose code is 0 there (observation: a pattern position X matches every base in the automaton and none in the
+    re-alignment) *)
+Theorem C10_iupac_table_sets : forall L, is_upper L = true -> L <> letter_X ->
+  forall j, N.testbit (nth (N.to_nat (L - 65)) iupac_tab 0%N) j = true <-> exists b, In b (bases_of L) /\ base_bit b = j.
+Proof. exact iupac_tab_iupac. Qed.
+
+(** apat.h: the documented maximum pattern length is the width of the state word (hence [1 << patlen] leaves the word for
+    a pattern of MAX_PAT_LEN symbols: known finding), the error budget stays below the 10000 marker of FilterBestMatch /
+    BestMatch, 26 letters, PATMASK and OBLIBIT are what the model of EncodePattern assumes *)
+Theorem C10_constants : constants_ok = true /\ MAX_PAT_LEN = 64%Z.
+Proof. exact (conj constants_consistent max_pat_len_64). Qed.
+
+(** the scanned window contains every occurrence (of a pattern of at most 63 positions) that starts in the requested
+    region [begin, begin + length) *)
+Theorem C10_window_covers_starts : forall seqlen begin length s m,
+  (0 <= begin)%Z -> (0 <= length)%Z -> (begin <= s < begin + length)%Z -> (0 <= m <= 63)%Z -> (s + m <= seqlen)%Z ->
+  (win_begin begin <= s)%Z /\ (s + m <= win_end seqlen begin length)%Z.
+Proof. exact window_covers_starts. Qed.
+
+(** MakeApatPattern (as repaired, fix: "MakeApatPattern refuses patterns of 64 symbols or more"): an accepted pattern has 1..63
+    positions - exactly the domain of the theorems on the automata below - and a pattern that encodes to 64 positions or more is
+    refused.  The property text quantifies over lengths 1..64: length 64 is now a clean error instead of a pattern that never
+    matches (known finding m64-rejected). *)
+Theorem C10_make_pattern_length : forall s p, make_pattern s = Some p ->
+  parse_pattern s = Some p /\ 1 <= List.length p <= 63.
+Proof. exact make_pattern_length. Qed.
+
+Theorem C10_make_pattern_too_long : forall s p, parse_pattern s = Some p -> 64 <= List.length p -> make_pattern s = None.
+Proof. exact make_pattern_too_long. Qed.
 
 (** *** the automata compute the specification, for every pattern of 1..63 positions, every budget,
     every text and every start position *)
@@ -85,16 +126,25 @@ Proof. exact revcomp_hits. Qed.
 Theorem C10_comp_pattern_involutive : forall pat, comp_pattern (comp_pattern pat) = pat.
 Proof. exact comp_pattern_invol. Qed.
 
-(** the string level (ecoComplementPattern as repaired): the letter table LX_BIO_CDNA_ALPHA agrees with
-    the complement of symbol sets on the 26 letters, and - bounded - for every accepted pattern string of at
-    most 6 characters over A G R N [ ] ! # (with '#' after a letter or a class) the complemented string is
-    accepted and encodes the complemented pattern: '!' and '#' stay attached to their position *)
+(** the string level (ecoComplementPattern as repaired): the letter table LX_BIO_CDNA_ALPHA (regenerated) agrees with the
+    complement of symbol sets on the 26 letters, and for EVERY pattern string accepted by CheckPattern / EncodePattern in
+    which each '#' directly follows a letter or a class (the documented grammar), the complemented string is accepted and
+    encodes the complemented pattern: '!' and '#' stay attached to their position.  Proved by induction on the token
+    structure of the accepted strings (CompString.v). *)
 Theorem C10_complement_table_consistent : comp_table_ok = true.
 Proof. exact comp_table_consistent. Qed.
 
-Theorem C10_comp_string_upto_6 : forall s,
-  In s (strings_upto 6) -> hash_after_position 0 s = true -> comp_string_ok s = true.
-Proof. exact comp_string_upto_6. Qed.
+Theorem C10_comp_string : forall s P,
+  hash_after_position 0 (map to_upper s) = true ->
+  parse_pattern s = Some P ->
+  parse_pattern (comp_string (map to_upper s)) = Some (comp_pattern P).
+Proof. exact comp_string_correct. Qed.
+
+(** the accepted strings of the documented grammar are exactly the sequences of well-formed tokens, and a sequence of
+    tokens encodes position by position *)
+Theorem C10_pattern_grammar : forall s, check_pattern s = true -> hash_after_position 0 s = true -> map to_upper s = s ->
+  exists toks, Forall wf_tok toks /\ s = render toks /\ (toks <> [] -> parse_pattern s = Some (map tok_sym toks)).
+Proof. exact pattern_grammar. Qed.
 
 (** the complemented pattern run by the real automaton *)
 Theorem C10_revcomp_automaton : forall pat k w q d,
@@ -208,16 +258,121 @@ Theorem C10_bestmatch_realigned_count : forall cpatb sq m res s e n,
   exists d', n = Z.of_nat d' /\ alg cpatb (slice sq s e) d' /\ (forall d'', alg cpatb (slice sq s e) d'' -> d' <= d'').
 Proof. exact best_match_realigned_correct. Qed.
 
+(** *** FilterBestMatch at full strength.  Vocabulary (PostProofs.v): [reach b h] = the hit h overlaps the hit b when both
+    spans are widened by their error counts (the test of the Go loop); [clusters res] = greedy clustering of the hits in order:
+    a hit joins the current cluster iff it is within reach of the best hit of that cluster so far, else it opens the next
+    cluster; [rep c] = the first hit of least error count of c. *)
+
+(** the reported list is exactly one representative per cluster, in order *)
+Theorem C10_filter_best_clusters : forall res, (forall h, In h res -> (err3 h < 10000)%Z) ->
+  filter_best res = map rep (clusters res).
+Proof. exact filter_best_clusters. Qed.
+
+(** the clusters partition the hit list into non-empty consecutive segments *)
+Theorem C10_clusters_partition : forall res, concat (clusters res) = res /\ Forall (fun c => c <> []) (clusters res).
+Proof. exact clusters_partition. Qed.
+
+(** the representative is a member of its cluster, of least error count, and the first such *)
+Theorem C10_cluster_representative : forall c, c <> [] ->
+  In (rep c) c /\ (forall h, In h c -> (err3 (rep c) <= err3 h)%Z) /\
+  exists l1 l2, c = l1 ++ rep c :: l2 /\ forall h, In h l1 -> (err3 (rep c) < err3 h)%Z.
+Proof. exact rep_spec. Qed.
+
+(** every hit is represented: the representative of its cluster is reported and has no more errors *)
+Theorem C10_filter_best_covers : forall res, (forall h, In h res -> (err3 h < 10000)%Z) ->
+  forall h, In h res -> exists c, In c (clusters res) /\ In h c /\ In (rep c) (filter_best res) /\ (err3 (rep c) <= err3 h)%Z.
+Proof. exact filter_best_covers. Qed.
+
+(** the reported matches are pairwise disjoint and in increasing order: for g reported before h, end g + err g <= start h
+    (hits in increasing order of start, non-negative error counts: C10_find_all_index_hits_wf) *)
+Theorem C10_filter_best_disjoint : forall res,
+  Sorted.StronglySorted (fun g h => (start3 g < start3 h)%Z) res -> (forall h, In h res -> (0 <= err3 h)%Z) ->
+  Sorted.StronglySorted (fun g h => (end3 g + err3 g <= start3 h)%Z) (filter_best res).
+Proof. exact filter_best_disjoint. Qed.
+
+(** *** the hit list of FindAllIndex, in every mode: strictly increasing starts, spans of the pattern length ending inside
+    the sequence, error counts within the budget; a negative (nominal) start only for an indel hit with at least one error *)
+Theorem C10_find_all_index_hits_wf : forall pat k indel text begin length l,
+  1 <= List.length pat -> List.length pat <= 63 ->
+  find_all_index pat k indel text begin length = Ok l ->
+  hits_wf (List.length pat) k indel (Z.of_nat (List.length text)) l.
+Proof. exact find_all_index_hits_wf. Qed.
+
+(** *** BestMatch reports a match iff the automaton reports a hit (every mode; the re-alignment never fails) *)
+Theorem C10_bestmatch_iff : forall pat k indel text begin length l cpatb sq,
+  1 <= List.length pat -> List.length pat <= 63 -> (Z.of_nat k < 10000)%Z -> cpatb <> [] -> List.length sq = List.length text ->
+  find_all_index pat k indel text begin length = Ok l ->
+  exists s e n mt, best_match cpatb sq (Z.of_nat (List.length pat)) indel l = Some (s, e, n, mt) /\ (mt = true <-> l <> []).
+Proof. exact best_match_iff_fai. Qed.
+
+(** *** [alg] (LocatePattern: symbols compared by obialign._samenuc over _iupac, IUPAC codes of the SEQUENCE are compatible)
+    versus [aligned] (the automaton: sequence symbols are plain letters tested against the symbol sets of sDnaCode).
+    The two comparisons are the same relation exactly on a/c/g/t sequence symbols, for every pattern letter but X (both
+    tables regenerated) ... *)
+Theorem C10_samenuc_agrees_on_acgt : forall L c, plain_letter L = true -> In c plain_codes ->
+  samenuc L (c + 97) = sym_match (dna_code L, false) c.
+Proof. exact samenuc_agrees. Qed.
+
+(** ... so on patterns made of IUPAC letters (X excepted; no class, no '!', no '#') and a/c/g/t texts every script of
+    LocatePattern is a script of the automaton with the same cost, every script of the automaton is one of LocatePattern up to
+    needless substitutions, and the edit distances coincide ([least P d]: d is the least cost).  Outside that domain they
+    differ (observations, exercised by the harness): an ambiguity code in the sequence matches no plain pattern letter in the
+    automaton but is compatible in LocatePattern; X is N in sDnaCode and nothing in _iupac (witness below); classes and
+    negations are not seen by LocatePattern, which reads the bytes of the pattern string *)
+Theorem C10_alg_aligned_agree : forall cs run, forallb plain_letter cs = true -> plain_text run = true ->
+  (forall d, alg cs (text_bytes run) d -> aligned (plain_pat cs) run d) /\
+  (forall d, aligned (plain_pat cs) run d -> exists d', d' <= d /\ alg cs (text_bytes run) d') /\
+  (forall d, least (alg cs (text_bytes run)) d <-> least (aligned (plain_pat cs) run) d).
+Proof. exact alg_aligned_agree. Qed.
+
+Theorem C10_samenuc_x_differs : samenuc letter_X (0 + 97) = false /\ sym_match (dna_code letter_X, false) 0 = true.
+Proof. exact samenuc_X_differs. Qed.
+
+(** *** AllMatches: never a match without a hit of the automaton (every mode, every pattern) ... *)
+Theorem C10_allmatches_sound : forall cpatb sq m k indel l r,
+  all_matches cpatb sq m k indel l = Some r -> r <> [] -> l <> [].
+Proof. exact all_matches_sound. Qed.
+
+(** ... and on the agreement domain no filtered hit is lost: the re-aligned count never exceeds the automaton's, so AllMatches
+    returns as many matches as FilterBestMatch and reports a match iff the automaton does *)
+Theorem C10_allmatches_iff : forall cs text k indel begin length l,
+  forallb plain_letter cs = true -> plain_text text = true -> 1 <= List.length cs -> List.length cs <= 63 ->
+  (Z.of_nat k < 10000)%Z ->
+  find_all_index (plain_pat cs) k indel text begin length = Ok l ->
+  exists r, all_matches cs (text_bytes text) (Z.of_nat (List.length cs)) (Z.of_nat k) indel l = Some r /\
+            List.length r = List.length (filter_best l) /\ (r <> [] <-> l <> []).
+Proof. exact all_matches_complete. Qed.
+
+(** ... and there the count AllMatches / BestMatch report for a re-aligned match is the edit distance between the pattern and
+    the reported span of the sequence in the automaton's own terms (symbol sets): the third clause of the property *)
+Theorem C10_allmatches_edit_distance : forall cs text m h s e d,
+  forallb plain_letter cs = true -> plain_text text = true ->
+  realign_all cs (text_bytes text) m h = Some (s, e, d) ->
+  (0 <= s <= e)%Z /\ (e <= Z.of_nat (List.length text))%Z /\
+  exists d', d = Z.of_nat d' /\ least (aligned (plain_pat cs) (slice text s e)) d'.
+Proof. exact realign_all_edit_distance. Qed.
+
+Theorem C10_bestmatch_edit_distance : forall cs text m res s e n,
+  forallb plain_letter cs = true -> plain_text text = true ->
+  snd (best_loop res (0, 0, 10000)%Z) <> 0%Z ->
+  best_match cs (text_bytes text) m true res = Some (s, e, n, true) ->
+  (0 <= s <= e)%Z /\ (e <= Z.of_nat (List.length text))%Z /\
+  exists d', n = Z.of_nat d' /\ least (aligned (plain_pat cs) (slice text s e)) d'.
+Proof. exact best_match_edit_distance. Qed.
+
+(** a pattern string made of IUPAC letters encodes to [plain_pat] (ties the two theorems above to EncodePattern) *)
+Theorem C10_parse_plain : forall cs, cs <> [] -> forallb plain_letter cs = true -> parse_pattern cs = Some (plain_pat cs).
+Proof. exact parse_plain. Qed.
+
 (** *** what is NOT proved here (checked by the correspondence run and the brute-force oracle only):
-    - patterns of 64 positions (excluded by [length pat <= 63]; known finding m64-never-matches);
-    - AllMatches / BestMatch report a match iff the automaton does, and FilterBestMatch reports pairwise
-      disjoint matches (proved: sub-list of the hits, keeps a hit of least error count);
-    - [alg] compares symbols with obialign._samenuc whereas the automaton uses the symbol sets of the pattern:
-      the two notions coincide on a/c/g/t texts and IUPAC letters only by the oracle;
-    - complementPattern on strings longer than 6 characters (bounded theorem C10_comp_string_upto_6; the
-      set-level theorem C10_revcomp_pattern is unbounded);
-    - that [parse_pattern] (CheckPattern + EncodePattern) implements the documented grammar: tied to the C
-      code by the correspondence run and to the IUPAC meaning by the Python oracle. *)
+    - patterns of 64 positions: refused by MakeApatPattern as repaired (C10_make_pattern_too_long; known finding m64-rejected);
+    - AllMatches on patterns with classes / negations / X or texts with ambiguity codes: only soundness (C10_allmatches_sound)
+      and the span / count theorems; there the re-aligned count is LocatePattern's (_samenuc), which can differ from the
+      automaton's in both directions (observations in the evidence);
+    - with obligatory positions and indels the edit-script reading of the automaton (C10_indel_sound/complete) is not stated:
+      C10_indel_sellers gives the exact recurrence;
+    - that the IUPAC nomenclature table [iupac_bases] (Model.v) is the standard one: it is the specification (26 lines), the
+      Python oracle has its own copy. *)
 
 (** *** non-vacuity: a pattern with a class, a negation and an obligatory position; hits with 0, 1
     and 2 mismatches; the obligatory position (g#) is never a mismatch *)
@@ -247,11 +402,17 @@ Proof. vm_compute. split; reflexivity. Qed.
 
 Example C10_comp_string_nonvacuous :
   let s := [33; 91; 65; 71; 93; 35]%N in                                        (* ![AG]# *)
-  existsb (fun t => list_eqb N.eqb t s) (strings_upto 6) = true /\ hash_after_position 0 s = true /\
+  hash_after_position 0 (map to_upper s) = true /\
   comp_string s = [33; 91; 84; 67; 93; 35]%N /\                                 (* ![TC]# *)
   parse_pattern s <> None.
 Proof. vm_compute. repeat split; discriminate. Qed.
 
+Print Assumptions C10_dna_code_iupac_sets.
+Print Assumptions C10_iupac_table_sets.
+Print Assumptions C10_constants.
+Print Assumptions C10_window_covers_starts.
+Print Assumptions C10_make_pattern_length.
+Print Assumptions C10_make_pattern_too_long.
 Print Assumptions C10_sub_exact.
 Print Assumptions C10_noerr_exact.
 Print Assumptions C10_find_all_index_exact.
@@ -264,7 +425,8 @@ Print Assumptions C10_revcomp_pattern.
 Print Assumptions C10_comp_pattern_involutive.
 Print Assumptions C10_revcomp_automaton.
 Print Assumptions C10_complement_table_consistent.
-Print Assumptions C10_comp_string_upto_6.
+Print Assumptions C10_comp_string.
+Print Assumptions C10_pattern_grammar.
 Print Assumptions C10_indel_sellers.
 Print Assumptions C10_find_all_index_indel.
 Print Assumptions C10_indel_sound.
@@ -280,3 +442,18 @@ Print Assumptions C10_allmatches_realigned_span_inside.
 Print Assumptions C10_bestmatch_span_inside.
 Print Assumptions C10_filter_best_sublist.
 Print Assumptions C10_filter_best_keeps_a_best_hit.
+Print Assumptions C10_filter_best_clusters.
+Print Assumptions C10_clusters_partition.
+Print Assumptions C10_cluster_representative.
+Print Assumptions C10_filter_best_covers.
+Print Assumptions C10_filter_best_disjoint.
+Print Assumptions C10_find_all_index_hits_wf.
+Print Assumptions C10_bestmatch_iff.
+Print Assumptions C10_samenuc_agrees_on_acgt.
+Print Assumptions C10_alg_aligned_agree.
+Print Assumptions C10_samenuc_x_differs.
+Print Assumptions C10_allmatches_sound.
+Print Assumptions C10_allmatches_iff.
+Print Assumptions C10_parse_plain.
+Print Assumptions C10_allmatches_edit_distance.
+Print Assumptions C10_bestmatch_edit_distance.
